@@ -123,8 +123,8 @@ CHECKS.update({
         '(iff at levels 2-3), full regular-vine property for centre and direct vines and for regular vines up to the default truncation 3, a proved-sound executable validator, plus limits found by the proofs '
         '(escape branch diverges, NaN breaks greediness). Tie: the real Tree classes are driven with synthetic tau matrices (exhaustive rank orderings for d<=4 in thorough) with numpy/set orders replayed, and real '
         'VineCopula.fit outputs are replayed and validated by vm_compute; every edge copula is what select_copula returned and admissible.',
-   note=TB + 'Model.Vine is tied to the source by proof for its edge kernel (check_constraint, identify_eds_ing, is_adjacent, sort_edge, get_child_edge, get_constraints: tools/vf/vinegen.py, C16_bridge_*, coq/Lib/PySet.v) and for the CONSTRUCTION of centre and direct vines (_sort_tau_by_y, get_anchor, Center/Direct _build_first_tree / _build_kth_tree, Tree.fit, get_tree, train_vine, the tree-count bound of VineCopula.fit: tools/vf/vinebuildgen.py, coq/Lib/PyMat.v, Props/C16_build.v: C16_bridge_sort_tau_by_y .. C16_bridge_vine_fit, for all inputs); the Prim loops of RegularTree stay hand-written (replay correspondence) unless Props/C16_regular.v is present; numpy argsort tie order and Python set order are replayed as recorded data; general proximity beyond tree 3 and no-pair-twice for regular vines are only validated per run, not proved.',
-   technique='Coq proof over a graph-construction model; edge kernel and the centre/direct construction incl. train_vine generated from the AST on every run and proved equal to the model (bridge theorems); replayed vm_compute correspondence + proved-sound validator on implementation output',
+   note=TB + 'Model.Vine is tied to the source by proof for its edge kernel (check_constraint, identify_eds_ing, is_adjacent, sort_edge, get_child_edge, get_constraints: tools/vf/vinegen.py, C16_bridge_*, coq/Lib/PySet.v) and for the CONSTRUCTION of centre and direct vines (_sort_tau_by_y, get_anchor, Center/Direct _build_first_tree / _build_kth_tree, Tree.fit, get_tree, train_vine, the tree-count bound of VineCopula.fit: tools/vf/vinebuildgen.py, coq/Lib/PyMat.v, Props/C16_build.v: C16_bridge_sort_tau_by_y .. C16_bridge_vine_fit, for all inputs); the Prim loops of RegularTree (tools/vf/vineregulargen.py, coq/Lib/PyPrim.v, Props/C16_regular.v: C16_bridge_regular_first / _kth, and the dispatch / Tree.fit / train_vine / VineCopula.fit bridges for all three vine types under sel_in, sel_some, perm_fun on the abstracted set order); Tree.get_tau_matrix stays an oracle input; numpy argsort tie order and Python set order are replayed as recorded data; general proximity beyond tree 3 and no-pair-twice for regular vines are only validated per run, not proved.',
+   technique='Coq proof over a graph-construction model; edge kernel and the construction of all three vine types incl. train_vine generated from the AST on every run and proved equal to the model (bridge theorems); replayed vm_compute correspondence + proved-sound validator on implementation output',
    ref='DESIGN.md section 7, C16'),
 })
 CHECKS.update({
@@ -143,7 +143,7 @@ CHECKS.update({
         '(full for every family except GaussianKDE whose cached sample size refutes it, with witness), every query and sample of an unfitted model raises NotFittedError and touches no generator (full for the bivariate classes since the F23 fix; vines since F30), multivariate validation leaves the state unchanged, get_instance returns a fresh configured object, '
         'definition-before-use of np.empty cells in vines (refuted with witness); AST-generated facts (store_args classes, validated fits, check_fit-first methods, guard shapes, fit writes) decided by vm_compute. '
         'Tie: random and scripted fit/query histories on the real classes vs vm_compute of the machine over captured oracle tables; refit-vs-fresh and misuse oracles on every class incl. vines.',
-   note=TB + 'Model.Lifecycle is tied to the source by proof, layer by layer, each generated from the AST on every run and proved equal to the model for all states and inputs: the control skeleton of Univariate/ScipyModel (unictlgen.py, C19_bridge_*), the family hooks of the eight classes, GaussianKDE._get_model/_set_params/pdf/logpdf/sample and the selecting wrapper (uniwrapgen.py, C19_bridge2_*), GaussianMultivariate / Multivariate fit, queries, to_dict/from_dict (gmctlgen.py, coq/Lib/PyGM.v, C19_bridge_gm_*), copulas/utils.py get_instance / get_qualified_name / store_args / check_valid_values (utilsgen.py, C19u_bridge_*), the Bivariate constructor / queries / serialisation (bivlifegen.py, coq/Lib/PyBivLife.v, C14_bridge_*); eight modelling errors of the hand-written model were found by bridges that did not go through and corrected; the control of GaussianKDE.cumulative_distribution / percent_point / _get_bounds, the four _constant_* methods and the constructors composed with the generated @store_args (kdeqgen.py, coq/Lib/PyKdeQ.v, C19_bridge3_*); still hand-written: save / load of the univariate and multivariate classes, the KS loop of select_univariate (oracle); scipy fits/optimisers are oracle tables captured per run; datasets are abstracted to (identity, constant?, range, size).',
+   note=TB + 'Model.Lifecycle is tied to the source by proof, layer by layer, each generated from the AST on every run and proved equal to the model for all states and inputs: the control skeleton of Univariate/ScipyModel (unictlgen.py, C19_bridge_*), the family hooks of the eight classes, GaussianKDE._get_model/_set_params/pdf/logpdf/sample and the selecting wrapper (uniwrapgen.py, C19_bridge2_*), GaussianMultivariate / Multivariate fit, queries, to_dict/from_dict (gmctlgen.py, coq/Lib/PyGM.v, C19_bridge_gm_*), copulas/utils.py get_instance / get_qualified_name / store_args / check_valid_values (utilsgen.py, C19u_bridge_*), the Bivariate constructor / queries / serialisation (bivlifegen.py, coq/Lib/PyBivLife.v, C14_bridge_*); ten modelling errors of the hand-written models were found by bridges that did not go through and corrected; the control of GaussianKDE.cumulative_distribution / percent_point / _get_bounds, the four _constant_* methods and the constructors composed with the generated @store_args (kdeqgen.py, coq/Lib/PyKdeQ.v, C19_bridge3_*); save / load in C14 (C14_rest.v); the KS loop of select_univariate is an oracle; scipy fits/optimisers are oracle tables captured per run; datasets are abstracted to (identity, constant?, range, size).',
    technique='Coq induction over fit histories on life-cycle state machines; the control skeletons of the univariate, wrapper, Gaussian-multivariate and bivariate classes and of copulas/utils.py generated from the AST with bridge theorems (C19_bridge_*, C19_bridge2_*, C19_bridge3_*, C19_bridge_gm_*, C19u_bridge_*, C14_bridge_*); AST facts; history correspondence',
    ref='DESIGN.md section 7, C19'),
 })
@@ -178,7 +178,7 @@ CHECKS.update({
         'bivariate copulas and GaussianMultivariate, idempotence under n round trips (induction), type dispatch of the generic entry points (incl. subclass entry points, and Multivariate.from_dict on vine dicts since the F38 fix), JSON-safety of univariate/bivariate/Gaussian dicts and non-safety of vine dicts (Python set under D), '
         'vine/tree/edge round trip with re-linking of previous_tree and parents; refutations with witnesses for the open defects (KDE options, StudentT constant, nested KDE dataset, std underflow, independence dispatch). AST-generated key sets (emitted/consumed keys per class) decided by vm_compute. '
         'Tie: real round trips (dict, JSON text, pickle/JSON files, repeated 1..3 times) checked inside Coq against the model on exact rationals; bitwise behaviour oracles on the real classes.',
-   note=TB + 'the Bivariate side of the model (CopulaTypes, __new__/__init__/subclasses, to_dict, from_dict, save/load, the ten queries of the five classes) is generated from the AST by tools/vf/bivlifegen.py and proved equal to Model.Lifecycle (Props/C14_biv.v: C14_bridge_*; connecting lemmas to the C10 model BivCtl); the univariate / Gaussian-multivariate to_dict / from_dict are generated and bridged in C19 (C19_bridge_to_dict / _from_dict, C19_bridge_gm_to_dict / _from_dict); Edge.to_dict, Tree.to_dict / from_dict and VineCopula._deserialize_trees are generated by tools/vf/vineserialgen.py and proved equal to Spec/VineSerial (Props/C14_vine.v: C14_bridge_Edge_to_dict .. C14_bridge_deserialize_trees); Edge.from_dict and VineCopula.to_dict / from_dict stay hand-written unless Props/C14_rest.v is present; pickle/json are oracles (deep copy incl. instance overrides / identity on JSON-able values); large vine payload arrays enter the model as injective tokens and are compared bitwise in the harness.',
+   note=TB + 'the Bivariate side of the model (CopulaTypes, __new__/__init__/subclasses, to_dict, from_dict, save/load, the ten queries of the five classes) is generated from the AST by tools/vf/bivlifegen.py and proved equal to Model.Lifecycle (Props/C14_biv.v: C14_bridge_*; connecting lemmas to the C10 model BivCtl); the univariate / Gaussian-multivariate to_dict / from_dict are generated and bridged in C19 (C19_bridge_to_dict / _from_dict, C19_bridge_gm_to_dict / _from_dict); Edge.to_dict, Tree.to_dict / from_dict and VineCopula._deserialize_trees are generated by tools/vf/vineserialgen.py and proved equal to Spec/VineSerial (Props/C14_vine.v: C14_bridge_Edge_to_dict .. C14_bridge_deserialize_trees); Edge.__init__ / from_dict, VineCopula.to_dict / from_dict, Univariate / Multivariate save / load by tools/vf/serialrestgen.py (Props/C14_rest.v, pickle-file model Spec/PickleFiles.v; round trips proved on the generated pairs); pickle/json are oracles (deep copy incl. instance overrides / identity on JSON-able values); large vine payload arrays enter the model as injective tokens and are compared bitwise in the harness.',
    technique='Coq induction over round-trip counts on serialisation models; bivariate constructor / serialisation / query skeleton generated from the AST with bridge theorems (C14_bridge_*); AST key facts; kernel-checked dict correspondence',
    ref='DESIGN.md section 7, C14'),
 })
